@@ -165,3 +165,46 @@ func valueKey(v reflect.Value) any {
 	}
 	return v.String()
 }
+
+// MapIter replaces *reflect.MapIter for `X.MapRange()` in the instrumented code (Next / Key / Value only): the
+// entries are collected in one pass of the real iterator (so a key that does not equal itself, NaN, keeps its
+// value) and handed out in the order the run's policy dictates.
+type MapIter struct {
+	keys, vals []reflect.Value
+	i          int
+}
+
+func (it *MapIter) Next() bool           { it.i++; return it.i <= len(it.keys) }
+func (it *MapIter) Key() reflect.Value   { return it.keys[it.i-1] }
+func (it *MapIter) Value() reflect.Value { return it.vals[it.i-1] }
+
+func MapRange(site int, m reflect.Value) *MapIter {
+	pol := mapPolicy(site)
+	it := &MapIter{}
+	for r := m.MapRange(); r.Next(); {
+		it.keys = append(it.keys, r.Key())
+		it.vals = append(it.vals, r.Value())
+	}
+	if pol == 0 {
+		return it
+	}
+	idx := make([]int, len(it.keys))
+	for i := range idx {
+		idx[i] = i
+	}
+	sort.SliceStable(idx, func(a, b int) bool { return keyLess(valueKey(it.keys[idx[a]]), valueKey(it.keys[idx[b]])) })
+	switch pol {
+	case 2:
+		for i, j := 0, len(idx)-1; i < j; i, j = i+1, j-1 {
+			idx[i], idx[j] = idx[j], idx[i]
+		}
+	case 3:
+		mapShuffle(len(idx), func(i, j int) { idx[i], idx[j] = idx[j], idx[i] })
+	}
+	keys, vals := make([]reflect.Value, len(idx)), make([]reflect.Value, len(idx))
+	for i, j := range idx {
+		keys[i], vals[i] = it.keys[j], it.vals[j]
+	}
+	it.keys, it.vals = keys, vals
+	return it
+}
